@@ -381,5 +381,3 @@ func TestC14_Random(t *testing.T) {
 		return nil
 	})
 }
-
-var _ = fmt.Sprintf
